@@ -133,4 +133,13 @@ Verdict(c, r) ==
   ELSE IF r.kind \in {"throw", "unknowntype"} THEN [v |-> "refused", at |-> {}]
   ELSE IF Values(c) = {} THEN [v |-> "vacuous", at |-> {}]
   ELSE LET b == Bad(c, r) IN IF b = {} THEN [v |-> "ok", at |-> {}] ELSE [v |-> "unsound", at |-> b]
+
+\* Two requests c1 then c2 to ONE converter over the same argument variables (same doms, same D).  When the
+\* second is answered with the variable that was introduced for the first ("an expression is replaced by an
+\* existing variable only when it really equals it on the whole domain"), the two expressions must have the
+\* same value at every point of the box where both are exactly representable.
+PairBad(c1, c2) == {a \in Box(c1) : LET v1 == ValQ(c1, a)  v2 == ValQ(c2, a) IN v1 # Skip /\ v2 # Skip /\ v1 # v2}
+PairVerdict(c1, c2, same) ==
+  IF ~same THEN [v |-> "distinct", at |-> {}]
+  ELSE LET b == PairBad(c1, c2) IN IF b = {} THEN [v |-> "ok", at |-> {}] ELSE [v |-> "unsound", at |-> b]
 =============================================================================
